@@ -1,12 +1,13 @@
 #!/usr/bin/env python3
 """py2v -- translate a few small pure Python functions of jlumpe/gambit into Gallina.
 
-Usage: py2v.py <repo>/src/gambit <outdir>      (writes <outdir>/PyFuncs.v)
+Usage: py2v.py <repo>/src/gambit <outdir>      (writes <outdir>/PyC01.v, PyC05.v, PyC20.v: one file per
+consuming property, so that a function that leaves the subset only costs the theorems that use it)
 
 The hand-written models of the Python code (coq/theories/Model/*.v) are tied to the source by
 behavioural correspondence.  For the integer-only helper functions below the tie is made
 syntactic as well: their text is translated on every run (fail closed: anything outside the
-small subset aborts with exit status 3) and Proofs/PyTie.v proves the translation equal to the
+small subset aborts with exit status 3) and Proofs/PyTieC01.v / PyTieC05.v / PyTieC20.v prove the translation equal to the
 hand model the property theorems are about.  A change to one of these functions therefore
 changes the generated definition and breaks the tie theorem.
 
@@ -23,14 +24,14 @@ import os
 import sys
 import textwrap
 
-#: (file relative to src/gambit, qualified name, Coq name, {python name: coq name} for parameters, extra parameters)
-FUNCS = [
-	('kmers.py', 'nkmers', 'py_nkmers', {}, []),
-	('kmers.py', 'index_dtype', 'py_index_dtype', {}, []),
-	('metric.py', 'num_pairs', 'py_num_pairs', {}, []),
-	('util/indexing.py', 'AdvancedIndexingMixin._check_index', 'py_check_index', {'self': None}, ['len_self']),
-	('util/misc.py', 'chunk_slices', 'py_chunk_slices', {}, []),
-]
+#: output file -> [(file relative to src/gambit, qualified name, Coq name, {python name: coq name} for parameters, extra parameters)]
+GROUPS = {
+	'PyC01.v': [('kmers.py', 'nkmers', 'py_nkmers', {}, []),
+	            ('kmers.py', 'index_dtype', 'py_index_dtype', {}, [])],
+	'PyC05.v': [('metric.py', 'num_pairs', 'py_num_pairs', {}, []),
+	            ('util/misc.py', 'chunk_slices', 'py_chunk_slices', {}, [])],
+	'PyC20.v': [('util/indexing.py', 'AdvancedIndexingMixin._check_index', 'py_check_index', {'self': None}, ['len_self'])],
+}
 
 
 class Unsupported(Exception):
@@ -210,9 +211,9 @@ Open Scope bool_scope.
 '''
 
 
-def translate(src_root):
+def translate(src_root, funcs):
 	out = [HEADER]
-	for rel, qual, coqname, renames, extra in FUNCS:
+	for rel, qual, coqname, renames, extra in funcs:
 		path = os.path.join(src_root, rel)
 		tree = ast.parse(open(path).read())
 		fn = find_function(tree, qual)
@@ -229,20 +230,31 @@ def translate(src_root):
 	return ''.join(out)
 
 
+STUB = '(* GENERATED by tools/py2v.py: TRANSLATION FAILED (fail closed), this file does not compile on purpose.\n   %s *)\nTranslation_failed.\n'
+
+
 def main(argv):
 	src, outdir = argv[1], argv[2]
-	try:
-		text = translate(src)
-	except (Unsupported, SyntaxError, OSError) as e:
-		print(f'py2v: translation failed (fail closed): {e}', file=sys.stderr)
-		return 3
 	os.makedirs(outdir, exist_ok=True)
-	path = os.path.join(outdir, 'PyFuncs.v')
-	changed = not (os.path.exists(path) and open(path).read() == text)
-	if changed:
-		open(path, 'w').write(text)
-	print(f'py2v: PyFuncs.v {"updated" if changed else "unchanged"}')
-	return 0
+	rc = 0
+	msgs = []
+	for name, funcs in GROUPS.items():
+		try:
+			text = translate(src, funcs)
+		except (Unsupported, SyntaxError, OSError) as e:
+			print(f'py2v: {name}: translation failed (fail closed): {e}', file=sys.stderr)
+			text = STUB % str(e).replace('*)', '* )')
+			rc = 3
+		path = os.path.join(outdir, name)
+		changed = not (os.path.exists(path) and open(path).read() == text)
+		if changed:
+			open(path, 'w').write(text)
+		msgs.append(f'{name} {"updated" if changed else "unchanged"}')
+	old = os.path.join(outdir, 'PyFuncs.v')     # file layout of earlier versions
+	if os.path.exists(old):
+		os.remove(old)
+	print('py2v: ' + ', '.join(msgs))
+	return rc
 
 
 if __name__ == '__main__':
